@@ -1029,10 +1029,10 @@ class SoftwareSwitchBase (object):
     # We don't support queues whatsoever so either send an empty list or send
     # an OFP_ERROR if an actual queue is requested.
     req = ofp.body
-    #if req.port_no != OFPP_ALL:
-    #  self.send_error(type=OFPET_QUEUE_OP_FAILED, code=OFPQOFC_BAD_PORT,
-    #                  ofp=ofp, connection=connection)
-    # Note: We don't care about this case for now, even if port_no is bogus.
+    if req.port_no != OFPP_ALL and req.port_no not in self.ports:
+      self.send_error(type=OFPET_QUEUE_OP_FAILED, code=OFPQOFC_BAD_PORT,
+                      ofp=ofp, connection=connection)
+      return
     if req.queue_id == OFPQ_ALL:
       return []
     else:
